@@ -24,7 +24,7 @@ EVIDENCE = os.path.join(VERIF, 'evidence')
 REPLAYS = os.path.join(VERIF, 'replays')
 CORPUS = os.path.join(VERIF, 'corpus')
 KNOWN = os.path.join(VERIF, 'known_findings.jsonl')
-NCPU = max(2, min(16, os.cpu_count() or 2))
+NCPU = int(os.environ.get('VERIF_NCPU', '3'))
 
 COQ_FLAGS = ['-R', os.path.join(COQ, 'theories'), 'PL',
              '-R', os.path.join(COQ, 'gen'), 'PLgen',
